@@ -239,6 +239,8 @@ type fxCloud struct {
 	filterV  string
 	v6on     bool
 	dump     bool
+	planAny  map[string][]string // full stack: outcomes per action, whichever slot sends the request
+	lagAny   fxLag
 	mplan    []string      // outcomes of the next metadata reads: ok | e500 | lost (consumed one per HTTP request)
 	post     []func()      // environment steps that follow the request being served (emitted after its event)
 	usedEni  map[int]bool  // ids are never handed out twice
@@ -453,6 +455,12 @@ func (t *fxTransport) RoundTrip(req *http.Request) (*http.Response, error) {
 	if q := f.plan[t.slot][act]; len(q) > 0 {
 		out = q[0]
 		f.plan[t.slot][act] = q[1:]
+	} else if q := f.planAny[act]; len(q) > 0 {
+		out = q[0]
+		f.planAny[act] = q[1:]
+	}
+	if f.planAny != nil {
+		f.lag[t.slot] = f.lagAny
 	}
 	tok := 0
 	if s := form["ClientToken"]; s != "" {
@@ -1305,76 +1313,8 @@ func (s *fxSys) call(st vt.M) {
 	if addrs == nil {
 		addrs = []int{}
 	}
-	s.w.Emit(vt.M{"ev": "call", "c": c, "k": kind, "e": e, "fam": fam, "n4": n4, "n6": n6, "type": typ, "addrs": addrs, "trunk": trunkID})
-	run := func() {
-		ret := vt.M{"ev": "ret", "c": c, "k": kind, "err": false, "msg": "", "eni": eniRec(nil), "v4": []int{}, "v6": []int{}, "enis": []vt.M{}}
-		var err error
-		switch kind {
-		case "create":
-			var r *daemon.ENI
-			var v4, v6 []netip.Addr
-			r, v4, v6, err = fac.CreateNetworkInterface(n4, n6, typ)
-			ret["eni"], ret["v4"], ret["v6"] = eniRec(r), fxAddrInts(v4), fxAddrInts(v6)
-		case "assign":
-			var l []netip.Addr
-			if fam == 4 {
-				l, err = fac.AssignNIPv4(fxEniID(e), n4, fxMac(e))
-				ret["v4"] = fxAddrInts(l)
-			} else {
-				l, err = fac.AssignNIPv6(fxEniID(e), n6, fxMac(e))
-				ret["v6"] = fxAddrInts(l)
-			}
-		case "unassign":
-			if fam == 4 {
-				err = fac.UnAssignNIPv4(fxEniID(e), naddrs, fxMac(e))
-			} else {
-				err = fac.UnAssignNIPv6(fxEniID(e), naddrs, fxMac(e))
-			}
-		case "delete":
-			err = fac.DeleteNetworkInterface(fxEniID(e))
-		case "load":
-			var v4, v6 []netip.Addr
-			v4, v6, err = fac.LoadNetworkInterface(fxMac(e))
-			ret["v4"], ret["v6"] = fxAddrInts(v4), fxAddrInts(v6)
-		case "attached":
-			var l []*daemon.ENI
-			id := ""
-			if trunkID > 0 {
-				id = fxEniID(trunkID)
-			}
-			l, err = fac.GetAttachedNetworkInterface(id)
-			recs := []vt.M{}
-			for _, x := range l {
-				recs = append(recs, eniRec(x))
-			}
-			ret["enis"] = recs
-		}
-		if err != nil {
-			ret["err"] = true
-			m := err.Error()
-			if len(m) > 160 {
-				m = m[:160]
-			}
-			ret["msg"] = m
-		}
-		f.mu.Lock() // the return is ordered against the cloud's own events
-		f.plan[c] = nil
-		f.mplan = nil
-		delete(s.busy, c)
-		for _, id := range f.madeBy[c] {
-			delete(f.creating, id)
-		}
-		delete(f.madeBy, c)
-		rec := ret["eni"].(vt.M)
-		for _, a := range ret["v4"].([]int) {
-			s.known[[3]int{map[bool]int{true: vt.Int(rec["e"]), false: e}[kind == "create"], 4, a}] = true
-		}
-		for _, a := range ret["v6"].([]int) {
-			s.known[[3]int{map[bool]int{true: vt.Int(rec["e"]), false: e}[kind == "create"], 6, a}] = true
-		}
-		s.w.Emit(ret)
-		f.mu.Unlock()
-	}
+	args := fxArgs{kind: kind, e: e, fam: fam, n4: n4, n6: n6, typ: typ, addrs: addrs, naddrs: naddrs, trunkID: trunkID}
+	run := func() { s.invoke(c, args) }
 	if vt.Bool(st["async"]) {
 		ch := make(chan struct{})
 		s.done[c] = ch
@@ -1382,6 +1322,102 @@ func (s *fxSys) call(st vt.M) {
 		return
 	}
 	run()
+}
+
+type fxArgs struct {
+	kind    string
+	e, fam  int
+	n4, n6  int
+	typ     string
+	addrs   []int
+	naddrs  []netip.Addr
+	trunkID int
+}
+
+type fxResult struct {
+	eni    *daemon.ENI
+	v4, v6 []netip.Addr
+	enis   []*daemon.ENI
+	err    error
+}
+
+// invoke performs one factory call in driver slot c on the real factory and records call and return.
+func (s *fxSys) invoke(c int, a fxArgs) fxResult {
+	f, fac := s.cloud, s.fac[c]
+	kind, e, fam, n4, n6, typ, addrs, naddrs, trunkID := a.kind, a.e, a.fam, a.n4, a.n6, a.typ, a.addrs, a.naddrs, a.trunkID
+	var res fxResult
+	s.w.Emit(vt.M{"ev": "call", "c": c, "k": kind, "e": e, "fam": fam, "n4": n4, "n6": n6, "type": typ, "addrs": addrs, "trunk": trunkID})
+	ret := vt.M{"ev": "ret", "c": c, "k": kind, "err": false, "msg": "", "eni": eniRec(nil), "v4": []int{}, "v6": []int{}, "enis": []vt.M{}}
+	var err error
+	switch kind {
+	case "create":
+		var r *daemon.ENI
+		var v4, v6 []netip.Addr
+		r, v4, v6, err = fac.CreateNetworkInterface(n4, n6, typ)
+		ret["eni"], ret["v4"], ret["v6"] = eniRec(r), fxAddrInts(v4), fxAddrInts(v6)
+		res.eni, res.v4, res.v6 = r, v4, v6
+	case "assign":
+		var l []netip.Addr
+		if fam == 4 {
+			l, err = fac.AssignNIPv4(fxEniID(e), n4, fxMac(e))
+			ret["v4"], res.v4 = fxAddrInts(l), l
+		} else {
+			l, err = fac.AssignNIPv6(fxEniID(e), n6, fxMac(e))
+			ret["v6"], res.v6 = fxAddrInts(l), l
+		}
+	case "unassign":
+		if fam == 4 {
+			err = fac.UnAssignNIPv4(fxEniID(e), naddrs, fxMac(e))
+		} else {
+			err = fac.UnAssignNIPv6(fxEniID(e), naddrs, fxMac(e))
+		}
+	case "delete":
+		err = fac.DeleteNetworkInterface(fxEniID(e))
+	case "load":
+		var v4, v6 []netip.Addr
+		v4, v6, err = fac.LoadNetworkInterface(fxMac(e))
+		ret["v4"], ret["v6"] = fxAddrInts(v4), fxAddrInts(v6)
+		res.v4, res.v6 = v4, v6
+	case "attached":
+		var l []*daemon.ENI
+		id := ""
+		if trunkID > 0 {
+			id = fxEniID(trunkID)
+		}
+		l, err = fac.GetAttachedNetworkInterface(id)
+		recs := []vt.M{}
+		for _, x := range l {
+			recs = append(recs, eniRec(x))
+		}
+		ret["enis"], res.enis = recs, l
+	}
+	res.err = err
+	if err != nil {
+		ret["err"] = true
+		m := err.Error()
+		if len(m) > 160 {
+			m = m[:160]
+		}
+		ret["msg"] = m
+	}
+	f.mu.Lock() // the return is ordered against the cloud's own events
+	f.plan[c] = nil
+	f.mplan = nil
+	delete(s.busy, c)
+	for _, id := range f.madeBy[c] {
+		delete(f.creating, id)
+	}
+	delete(f.madeBy, c)
+	rec := ret["eni"].(vt.M)
+	for _, a := range ret["v4"].([]int) {
+		s.known[[3]int{map[bool]int{true: vt.Int(rec["e"]), false: e}[kind == "create"], 4, a}] = true
+	}
+	for _, a := range ret["v6"].([]int) {
+		s.known[[3]int{map[bool]int{true: vt.Int(rec["e"]), false: e}[kind == "create"], 6, a}] = true
+	}
+	s.w.Emit(ret)
+	f.mu.Unlock()
+	return res
 }
 
 func (s *fxSys) wait(c int) {
